@@ -74,7 +74,7 @@ bool HistoryBuffer::setHistorySize(const unsigned int window)
 
     if (tmp < window_ && tmp < history_buffer_.size())
     {
-        for (unsigned int i = 0; i < (window_ - tmp); ++i)
+        while (history_buffer_.size() > tmp)
             history_buffer_.pop_back();
     }
 
